@@ -301,12 +301,14 @@ class Verifier:
             f0 = cf.formula(sv0, fp, names)
             if f0 is None:
                 continue
-            st.assume(f0)
+            # NOT assumed in the function's own verification (that would constrain its pre-state): the foreign fact is the
+            # antecedent of the stability obligations only
+            ante = [f0]
             if cf.distinct is not None:
                 dd = cf.distinct(sv0, fp, names, c.qual, frm)
                 if dd is not None:
-                    st.assume(dd)
-            eng.foreign.append((cf, fp))
+                    ante.append(dd)
+            eng.foreign.append((cf, fp, z3.And(ante)))
         snap = st.clone()
         snap._foreign = list(eng.foreign)
         cache[ck] = (snap, {k: memo_clone(v, snap._memo) for k, v in names.items()}, names_position(), dict(eng.probes))
@@ -406,11 +408,11 @@ class Verifier:
         q = c.qual
         if outcome[0] in ('yield', 'return') or (outcome[0] == 'raise' and c.raises.get(outcome[1], {}).get('unchanged', True) is False):
             svn = SV(eng, st, names)
-            for cf, fp in getattr(eng, 'foreign', []):
+            for cf, fp, ante in getattr(eng, 'foreign', []):
                 f1 = cf.formula(svn, fp, names)
                 if f1 is not None:
                     tagx = f"seg{frm}->{outcome[0]}" if frm is not None else outcome[0]
-                    eng.oblige(f"stable:{q}:{tagx}:{cf.name}", 'stable', f1)
+                    eng.oblige(f"stable:{q}:{tagx}:{cf.name}", 'stable', z3.Implies(ante, f1))
         if outcome[0] in ('yield', 'return'):
             self.check_nondet(eng, c, names, f"seg{frm}")
             self.check_spawns(eng, q, f"seg{frm}" if frm is not None else 'call')
